@@ -176,6 +176,18 @@ def main():
     workers = int(arg("--workers", "4"))
     out = arg("--out", "/tmp/mut")
     checks = arg("--checks", ",".join(ORDER)).split(",")
+    skip = arg("--skip", "")
+    if skip:
+        import glob as _g
+        done = set()
+        for f in _g.glob(skip):
+            for l in open(f):
+                try:
+                    r = json.loads(l)
+                    done.add((r["file"], r["line"], r["op"], r.get("idx", 0)))
+                except Exception:
+                    pass
+        sites = [x for x in sites if (x["file"], x["line"], x["op"], x["idx"]) not in done]
     only_ops = arg("--ops", "")
     if only_ops:
         sites = [x for x in sites if x["op"] in only_ops.split(",")]
@@ -186,7 +198,7 @@ def main():
     seen, pick = {}, []
     for s in sites:
         k = (s["file"], s["op"])
-        if seen.get(k, 0) < max(3, n // 20):
+        if seen.get(k, 0) < max(3, n // 20) or "--all" in a:
             seen[k] = seen.get(k, 0) + 1
             pick.append(s)
         if len(pick) >= n:
